@@ -58,6 +58,8 @@ def decide_case(case, pf, budget):
         groups.setdefault(ob['group'], []).append(ob)
     reps = {}     # (group kind) -> list of (lane, formula) proven unsat by a solver
     unknown_by_kind = {}
+    all_obs = [ob for ob in case.obligations
+               if not (ob['formula'] is False or (not isinstance(ob['formula'], bool) and solve.is_trivially_false(ob['formula'])))]
     for gname, obs in groups.items():
         live = []
         for ob in obs:
@@ -178,10 +180,12 @@ def decide_case(case, pf, budget):
                 # one counterexample per obligation kind is enough for this wrapper
                 break
             else:
-                cm = corner_probe(case, ob0, pf) if not out.get('corner_done') else None
-                out['corner_done'] = True          # once per wrapper: the code shape is the same in every lane
+                # once per wrapper, over the disjunction of every live obligation of every path and lane: a defect that sits on another
+                # path than the first undecided one (an early loop exit taken only when all lanes agree) is found here
+                cm, cob = corner_probe(case, ob0, pf, all_obs=all_obs) if not out.get('corner_done') else (None, None)
+                out['corner_done'] = True
                 if cm is not None:
-                    out['sat'].append({'kind': ob['kind'], 'desc': ob['desc'], 'lane': lane, 'model': cm, 'solver': 'z3-corner', 'ob': ob0})
+                    out['sat'].append({'kind': cob['kind'], 'desc': cob['desc'], 'lane': cob.get('lane'), 'model': cm, 'solver': 'z3-corner', 'ob': cob})
                     break
                 note = None
                 if ob0.get('slices') and not out.get('slices_hopeless'):
@@ -234,13 +238,18 @@ def corner_patterns(w):
     return out
 
 
-def corner_probe(case, ob, pf, max_combos=90, ms=400):
+def corner_probe(case, ob, pf, max_combos=90, ms=400, all_obs=None):
     """Undecided obligation: a violation that needs one exact corner value (all-ones, MIN, ...) is a needle no CDCL search finds
     in a multiplier, while fixing the inputs to a corner makes the query trivial.  Every argument is set lane-uniformly to one
     of the corner patterns (all combinations, capped) and the solver completes the remaining variables (rounding mode, ...).
     A hit is a counterexample candidate like any other model (replayed natively before it is reported); no hit proves nothing."""
     import itertools
-    f = sym.bz(ob['formula'])
+    obs = [ob] + [o for o in (all_obs or []) if o is not ob]
+    fs = []
+    for o in obs:
+        fo = o['formula']
+        fs.append(z3.BoolVal(True) if fo is True else sym.bz(fo))
+    f = z3.Or(*fs) if len(fs) > 1 else fs[0]
     args = []
     for inp in getattr(case, 'inputs', []) or []:
         vs = [v for v in inp.get('vars', []) if not isinstance(v, (int, bool)) and z3.is_const(v) and v.decl().kind() == z3.Z3_OP_UNINTERPRETED]
@@ -251,7 +260,7 @@ def corner_probe(case, ob, pf, max_combos=90, ms=400):
         elif z3.is_bv(vs[0]):
             args.append((vs, corner_patterns(vs[0].size())))
     if not args:
-        return None
+        return None, None
     n = 0
     for combo in itertools.product(*[range(len(pats)) for _, pats in args]):
         if n >= max_combos:
@@ -271,11 +280,19 @@ def corner_probe(case, ob, pf, max_combos=90, ms=400):
         pf.stats.calls['z3'] += 1
         pf.stats.time['z3'] += dt
         if r == 'sat':
-            m = dict(m or {})
-            for v, val in subs:
-                m[v.decl().name()] = (z3.is_true(val) if z3.is_bool(val) else val.as_long())
-            return m
-    return None
+            # which obligation is it?  (the model of the disjunction is re-derived on the single obligation)
+            for o, fo in zip(obs, fs):
+                go = z3.simplify(z3.substitute(fo, *subs))
+                if z3.is_false(go):
+                    continue
+                ro, mo, dto = solve.z3_check(asm, go, ms)
+                pf.stats.time['z3'] += dto
+                if ro == 'sat':
+                    mo = dict(mo or {})
+                    for v, val in subs:
+                        mo[v.decl().name()] = (z3.is_true(val) if z3.is_bool(val) else val.as_long())
+                    return mo, o
+    return None, None
 
 
 def dag_size(t, cache):
